@@ -52,6 +52,9 @@ var props = map[string]propCfg{
 	"C02": {Level: "exploration", DeathIsViolation: true,
 		Quick:    tierCfg{Checks: 800, Shards: 16, Guard: 15 * time.Minute},
 		Thorough: tierCfg{Checks: 32000, Shards: 16, Guard: 120 * time.Minute}},
+	"C03": {Level: "exploration", DeathIsViolation: true,
+		Quick:    tierCfg{Checks: 1600, Shards: 16, Guard: 15 * time.Minute},
+		Thorough: tierCfg{Checks: 64000, Shards: 16, Guard: 120 * time.Minute}},
 	"C04": {Level: "exploration", DeathIsViolation: true,
 		Quick:    tierCfg{Checks: 800, Shards: 16, Guard: 15 * time.Minute},
 		Thorough: tierCfg{Checks: 32000, Shards: 16, Guard: 120 * time.Minute}},
